@@ -103,10 +103,14 @@ Fixpoint read_dir (tb : tabs) (s : list byte) (end_ : Z) (args : list fmtarg) (p
       end
   end.
 
+(* maxDirParam = slip.ArrayMaxDimension = 0x10000000: since repo_fixes/C09-34 a numeric parameter whose
+   magnitude exceeds it is an error (getIntParam), it used to be a repeat count / buffer size as it stood.
+   A bignum picked up by v saturates to the largest / smallest int first, i.e. is also "too large". *)
+Definition max_dir_param : Z := 268435456.
 Definition count_of (params : list param) : option Z :=       (* n of ~n% and friends *)
   match params with
   | [] => Some 1%Z
-  | PInt z :: _ => Some z
+  | PInt z :: _ => if ((z <? - max_dir_param) || (max_dir_param <? z))%Z then None else Some z
   | _ => None                                                  (* invalidDir / invalidDirParam *)
   end.
 Definition rep (n : Z) (b : byte) : list byte := repeat b (Z.to_nat n).
